@@ -292,14 +292,19 @@ def ord_rule(repo, mir, res, rule="ORD"):
         res.undecided(rule, f"{rule}:{fq}:bufwriter", f"{len(bw)} BufWriter::new sites", fn.loc())
         return
     p = A.resolve(bw[0]["args"][0], envs.get(id(bw[0])))
-    creators = [c for c in P.find_calls(fn.body, names={"get_file_or_stdout"})]
+    # the destination openers of main.rs, by signature: functions returning a boxed `dyn Write`
+    openers = {f.name for f in repo.fns_in("main") if "dynWrite" in "".join((f.node.get("ret") or "").split())}
+    if not openers:
+        res.undecided(rule, f"{rule}:{fq}:openers", "no function of main.rs returns a boxed `dyn Write`", fn.loc())
+        return
+    creators = [c for c in P.find_calls(fn.body, names=openers)]
     script_call = None
     for c in creators:
         q = A.resolve(c, envs.get(id(c)))
         if P.peel(p) == q:
             script_call = c
     if script_call is None:
-        res.undecided(rule, f"{rule}:{fq}:script-file", f"cannot tell which get_file_or_stdout feeds the writer ({A.show(p)})", fn.loc())
+        res.undecided(rule, f"{rule}:{fq}:script-file", f"cannot tell which call of {sorted(openers)} feeds the writer ({A.show(p)})", fn.loc())
         return
     # its path argument is the --<shell> path
     a0 = A.resolve(script_call["args"][0], envs.get(id(script_call)))
@@ -308,7 +313,7 @@ def ord_rule(repo, mir, res, rule="ORD"):
     blk = None
     for i, b in enumerate(mfn.blocks):
         t = b["term"]
-        if t["k"] == "call" and mir.callee_of(mfn, t).endswith("get_file_or_stdout") and b["tsp"]["line"] == script_call["l"]:
+        if t["k"] == "call" and mir.callee_of(mfn, t).split("::")[-1] in openers and b["tsp"]["line"] == script_call["l"]:
             blk = i
     if blk is None:
         res.undecided(rule, f"{rule}:{fq}:mir-site", "MIR call site of the script-file creation not found", fn.loc())
@@ -330,11 +335,13 @@ def ord_rule(repo, mir, res, rule="ORD"):
             line = mfn.blocks[i]["tsp"]["line"]
             tries_after.append(line)
     src_ok = True
+    # the `?` belongs to a write_completion_script(..)? expression or to the creation itself: its line lies within such a `?` expression
+    spans = []
+    for t in A.walk(fn.body):
+        if t["k"] == "Try" and (any(x is script_call for x in A.walk(t["expr"])) or any(True for _ in P.find_calls(t["expr"], names={"write_completion_script"}))):
+            spans.append((t["l"], t.get("el", t["l"])))
     for line in tries_after:
-        txt = repo.src[fn.file][line - 1]
-        # the `?` belongs to a write_completion_script(..)? statement (may span lines) or to the creation itself
-        window = " ".join(repo.src[fn.file][max(0, line - 3): line + 1])
-        if "write_completion_script" not in window and "get_file_or_stdout(path)" not in window:
+        if not any(a <= line <= b for a, b in spans):
             src_ok = False
     res.check(src_ok and len(tries_after) >= 4, rule, f"{rule}:{fq}:only-emitter-errors-after-create", f"{len(tries_after)} `?` after creation, all on write_completion_script(..)", fn.loc())
     # validation dominates creation
@@ -345,7 +352,7 @@ def ord_rule(repo, mir, res, rule="ORD"):
         ok = bool(bl) and any(b in dom.get(blk, ()) for b in bl)
         res.check(ok, rule, f"{rule}:{fq}:dominated-by:{nme}", f"{nme} dominates the creation of the script destination", fn.loc())
     # no other file creation before validation except --regex/--dfa dumps (by design)
-    res.check(len(creators) == 3, rule, f"{rule}:{fq}:creators", f"{len(creators)} get_file_or_stdout sites (script, --regex, --dfa)", fn.loc())
+    res.check(len(creators) == 3, rule, f"{rule}:{fq}:creators", f"{len(creators)} destination-opening sites (script, --regex, --dfa)", fn.loc())
 
 
 def spanline_rule(repo, res, rule="SPANLINE"):
